@@ -272,7 +272,9 @@ func (x *c03Interp) execStmt(fr *c03Frame, st *c03State, s ast.Stmt, label strin
 				if len(vs.Values) == 0 {
 					for _, n := range vs.Names {
 						if ov, ok := info.Defs[n].(*types.Var); ok {
-							o.st.vars[ov] = c03ZeroValue(ov.Type())
+							zv := c03ZeroValue(ov.Type())
+							zv.Born, zv.Site = len(o.st.Trace), vs
+							o.st.vars[ov] = zv
 						}
 					}
 					next = append(next, o)
@@ -519,6 +521,11 @@ func (x *c03Interp) execTypeSwitch(fr *c03Frame, st *c03State, s *ast.TypeSwitch
 			bv := v
 			if t != nil && len(cc.List) == 1 && !c03IsIface(t) {
 				bv = c03Retype(v, t)
+				if c03TypeMatch(v, t) == triU && v.Key != "" {
+					// the clause narrows a value of unknown dynamic type: as `bv, ok := v.(T)` with ok true
+					bv = x.initVal(&c03Root{Kind: "assert", Node: cc, Of: v, T: t}, nil, t, c03AssertKey(v, t))
+					st.event(c03Event{Kind: "assert", Node: cc, Frame: fr, Val: v, Ok: &c03V{K: c03KBool, Bool: true, T: types.Typ[types.Bool]}, T: t, Results: []*c03V{bv}})
+				}
 			}
 			st.vars[o] = bv
 		}
